@@ -34,12 +34,22 @@ ASSUMPTIONS = [
 ]
 FORMS = gen.BUILTIN + ["buck4"]
 REQUIRED = dict(("cell:%s:%s" % (f, r), 8) for f in FORMS for r in ("forms", "potable")
-                ) | dict(("cell:%s:%s" % (f, r), 8) for f in gen.BUILTIN for r in ("functions", "formula")) | {"other_units": 40}
+                ) | dict(("cell:%s:%s" % (f, r), 8) for f in gen.BUILTIN for r in ("functions", "formula")) | {"other_units": 40, "two_parameter_sets_checked": 100, "twin_parameter_vectors": 15}
+
+
+# parameters that may take any real value (a nudged copy stays inside the form's domain)
+EDITABLE = {"coul": [0, 1], "constant": [0], "polynomial": "all", "exponential": [0], "sqrt": [0], "morse": [2], "buck": [0, 2],
+            "bornmayer": [0], "hbnd": [0, 1], "lj": [0], "exp_spline": "all"}
 
 
 @st.composite
-def _case(draw):
-    name = draw(st.sampled_from(FORMS))
+def _case_for(draw, name):
+    return draw(_case(name))
+
+
+@st.composite
+def _case(draw, name=None):
+    name = name or draw(st.sampled_from(FORMS))
     p = list(draw(gen.form_params(name)))
     rs = draw(st.lists(gen.fl(0.02, 30.0), min_size=4, max_size=8))
     rs = [r for r in rs if r > 0]
@@ -48,7 +58,31 @@ def _case(draw):
     # a second parameter vector for the same form, evaluated at the SAME separations in between: the value
     # of a form depends on (r, parameters) only, not on what was evaluated before
     p2 = list(draw(gen.form_params(name)))
+    ed = EDITABLE.get(name)
+    if ed and draw(st.booleans()):
+        # ... or the SAME vector with one parameter nudged (v+1, v-1, -v, 2v, v/2): near-equal argument lists
+        p2 = list(p)
+        idx = list(range(len(p))) if ed == "all" else [i for i in ed if i < len(p)]
+        i = draw(st.sampled_from(idx))
+        v = p[i]
+        p2[i] = draw(st.sampled_from([v + 1, v - 1, -v, 2 * v, v / 2.0 if isinstance(v, float) or v % 2 else v // 2]))
     return {"form": name, "p": p, "rs": rs, "p_alt": p2}
+
+
+@st.composite
+def _twins(draw):
+    """two parameter vectors that differ in one value only, the two values being 'twins' for Python containers:
+    -1 and -2 have the same hash in CPython, 1 / 1.0 / True are equal - anything memoised on arguments meets them"""
+    name = draw(st.sampled_from(sorted(EDITABLE)))
+    case = draw(_case_for(name))
+    p, p2 = list(case["p"]), list(case["p"])
+    ed = EDITABLE[name]
+    idx = list(range(len(p))) if ed == "all" else [i for i in ed if i < len(p)]
+    i = draw(st.sampled_from(idx))
+    a, b = draw(st.sampled_from([(-1, -2), (-2, -1), (-1.0, -2.0), (-2.0, -1), (2, 2.5), (1, 1.5)]))
+    p[i], p2[i] = a, b
+    case.update({"p": p, "p_alt": p2, "twins": True})
+    return case
 
 
 @st.composite
@@ -71,7 +105,7 @@ def strategy(tier):
 def strata(tier):
     # one stratum per form: Hypothesis' sampled_from is too clumpy at 100 examples to reach every form
     n = len(gen.UNIT_FORMS)
-    return [("natural units", _case(), 6 * n)] + [("other units:" + f, _units(f), 1) for f in gen.UNIT_FORMS]
+    return [("natural units", _case(), 6 * n), ("twins", _twins(), 8)] + [("other units:" + f, _units(f), 1) for f in gen.UNIT_FORMS]
 
 
 def budget(tier):
@@ -104,6 +138,8 @@ def check_case(case):
     name, p, rs = case["form"], case["p"], case["rs"]
     v = []
     cls = ["other_units"] if case.get("units") else []
+    if case.get("twins"):
+        cls.append("twin_parameter_vectors")
     if any(0 < abs(x) < 1e-16 for x in p):
         cls.append("parameter_below_1e-16:" + name)
     node = {"k": "form", "name": name, "p": p}
@@ -205,6 +241,42 @@ def check_case(case):
             if v:
                 break
         cls.append("sequence_checked")
+    # ... and through a potable file that holds BOTH parameter sets (two [Pair] entries and a formula calling the form
+    # with each of them), evaluated alternately at the same separations
+    if p2 is not None and not v and list(p2) != list(p):
+        node2 = {"k": "form", "name": name, "p": p2}
+        pdb = {"ranges": [{"m": None, "s": None, "body": node2}]}
+        m3 = {"tabulation": {"target": "LAMMPS", "nr": 5, "cutoff": 2.0}, "env": {"custom": []},
+              "pair": [("A", "A", pd), ("A", "B", pdb)]}
+        if name != "buck4":
+            def call(q):
+                return {"o": "as", "f": name, "args": [{"o": "var", "n": "r"}] + [{"o": "num", "v": x} for x in q]}
+            m3["env"]["custom"] = [{"name": "bothf", "params": ["r", "w"], "expr": {
+                "o": "+", "a": {"o": "*", "a": {"o": "var", "n": "w"}, "b": call(p)}, "b": call(p2)}}]
+            m3["pair"].append(("B", "B", {"ranges": [{"m": None, "s": None, "body": {"k": "custom", "name": "bothf", "p": [1]}}]}))
+        txt3 = render.model_text(m3)
+        try:
+            f3 = libroute.functions(libroute.read_text(txt3))
+            for r in rs[:4]:
+                try:
+                    j1 = ref.simple(node, Jet.var(r, 0), model.Trace())
+                    j2 = ref.simple(node2, Jet.var(r, 0), model.Trace())
+                except DomainError:
+                    continue
+                seq = [("A-A", j1), ("A-B", j2), ("A-A", j1)] + ([("B-B", j1 + j2)] if name != "buck4" else [])
+                for k, (lab, w) in enumerate(seq):
+                    got_ = libroute.realnum(f3["pair:" + lab](r))
+                    # the formula route parses its literals with exprtk (a couple of ulp per literal)
+                    t_ = (256 if lab != "B-B" else 4096) * EPS * w.c[0].e + 1e-300
+                    if got_ is None or not abs(got_ - w.v) <= t_:
+                        v.append(("two_parameter_sets:%s" % name, "as.%s with parameters %r (A-A) and %r (A-B) in one file, r=%r: "
+                                  "evaluation %d (%s) returned %r, documented formula gives %r\n%s" % (name, p, p2, r, k + 1, lab, got_, w.v, txt3)))
+                        break
+                if v:
+                    break
+            cls.append("two_parameter_sets_checked")
+        except Exception as e:
+            v.append(("two_parameter_sets:exception:%s@%s" % (type(e).__name__, libroute.innermost_atsim_frame(e)), "%r\n%s" % (e, txt3)))
     if checked == 0:
         return {"v": v, "cls": cls, "nt": False, "skip": True}
     nt = _nontrivial(p)
